@@ -4,6 +4,7 @@ the probe updater, the recording emitter and the deterministic hang budget.
 Nothing here draws random numbers or reads a wall clock."""
 
 import copy
+import os
 import sys
 import hashlib
 
@@ -154,9 +155,17 @@ class Recorder:
 
     def digest(self):
         h = hashlib.blake2b(digest_size=8)
+        dump = os.environ.get('VERIF_DUMPLOG')
+        lines = []
         for e in self.log:
-            h.update(repr(sorted((k, repr(canon(v))) for k, v in e.items()
-                                 if k not in ('snap', 'view'))).encode())
+            line = repr(sorted((k, repr(canon(v))) for k, v in e.items()
+                               if k not in ('snap', 'view')))
+            h.update(line.encode())
+            if dump:
+                lines.append(line)
+        if dump:
+            with open('%s.%d' % (dump, os.getpid()), 'a') as f:
+                f.write('==== %s\n' % h.hexdigest() + '\n'.join(lines) + '\n')
         return h.hexdigest()
 
 
